@@ -5,8 +5,8 @@
    The model (Model/C11.v) is tied to partitura's code by the correspondence run of
    harness/props/c11.py on every check (same definitions, evaluated by vm_compute). *)
 From PV Require Import Lib.Base Lib.Round Gen.C11_Tables Model.C11 Model.C11_Spec Model.C11_Norm
-  Model.C11_Hist
-  Proofs.C11_lib Proofs.C11_meas Proofs.C11_est Proofs.C11 Proofs.C11_norm Proofs.C11_tup Proofs.C11_slur Proofs.C11_hist.
+  Model.C11_Hist Model.C11_Pipe
+  Proofs.C11_lib Proofs.C11_meas Proofs.C11_est Proofs.C11 Proofs.C11_norm Proofs.C11_tup Proofs.C11_slur Proofs.C11_hist Proofs.C11_pipe.
 From Coq Require Import QArith Qabs Sorting.Sorted.
 #[local] Open Scope Z_scope.
 
@@ -519,3 +519,84 @@ Example set_quarter_example :
   = ([(0, 12); (3, 6); (15, 13)], [(0, 12); (3, 6); (15, 13); (63, 13); (70, 13); (71, 13)]).
 Proof. exact ex_set_quarter. Qed.
 Print Assumptions set_quarter_example.
+
+(* ------------------------------------------------------------------ the operations chained (Model/C11_Pipe.v) *)
+(* state = (measures, tie chains); add_measures reads the measures present as its existing ones and replaces
+   them, tie_notes splits at the starts of the measures present NOW, sanitize_part inspects the chains as they
+   are now; find_tuplets / fill_rests do not touch a Note of a chain. *)
+
+(* under `pre` EVERY sequence of operations runs through: the fuel of the add_measures model suffices also
+   when it reads the measures an earlier add_measures made *)
+Theorem pipeline_total : forall E ops st,
+  pre (pe_tsigs E) (pe_first E) (pe_last E) (fst st) -> exists st', prun E ops st = Some st'.
+Proof. exact pipeline_total_lemma. Qed.
+Print Assumptions pipeline_total.
+
+(* the note array (pitch, voice, staff, onset, summed duration of every chain, in order) is the same after
+   EVERY sequence of add_measures / tie_notes / sanitize_part(tie_tolerance >= 0) / find_tuplets / fill_rests,
+   in any order and any number of times, on any measures -- and the chains are contiguous again *)
+Theorem pipeline_keeps_note_array : forall E ops st st',
+  Forall tol_ok ops -> all_contiguous (snd st) -> prun E ops st = Some st' ->
+  map sounding (snd st') = map sounding (snd st) /\ all_contiguous (snd st').
+Proof. exact pipeline_note_array_lemma. Qed.
+Print Assumptions pipeline_keeps_note_array.
+
+(* "afterwards": whatever ran before (anything but tie_notes, add_measures any number of times), then
+   add_measures, then tie_notes, then any operations that are neither (sanitize_part with any tolerance >= 0,
+   find_tuplets, fill_rests, any number of times): the measures the part holds at the end tile [first, last),
+   every piece of every chain is non-empty and within ONE of them, and the note array is that of the beginning *)
+Theorem pipeline_pieces_within_measures : forall E ops1 ops2 ms0 cs0,
+  pre (pe_tsigs E) (pe_first E) (pe_last E) ms0 ->
+  Forall (fun e => 0 < snd e) (pe_dm E) ->
+  all_contiguous cs0 -> pieces_inside (pe_first E) (pe_last E) cs0 ->
+  Forall tol_ok ops1 -> Forall not_tie ops1 -> Forall quiet ops2 ->
+  exists ms cs, prun E (ops1 ++ PAdd :: PTie :: ops2) (ms0, cs0) = Some (ms, cs)
+    /\ chain_from (pe_first E) ms (pe_last E) /\ pieces_in_measures ms cs
+    /\ map sounding cs = map sounding cs0.
+Proof. exact pipeline_within_lemma. Qed.
+Print Assumptions pipeline_pieces_within_measures.
+
+(* "covers exactly the stretches not already inside a measure": when the measures present already tile
+   [first, last) add_measures returns exactly them -- nothing added, nothing moved (all signatures, all tilings) *)
+Theorem add_measures_on_covered_timeline_adds_nothing : forall div tsigs first last ex ms,
+  pre tsigs first last ex -> chain_from first ex last ->
+  add_measures div tsigs first last ex = Some ms -> spans ms = ex.
+Proof. exact add_measures_covered_lemma. Qed.
+Print Assumptions add_measures_on_covered_timeline_adds_nothing.
+
+(* ... so add_measures directly after add_measures changes nothing, whatever follows (the second call reads the
+   measures the first one made; pipeline_example runs this situation) *)
+Theorem add_measures_twice_is_add_measures_once : forall E ops st,
+  pre (pe_tsigs E) (pe_first E) (pe_last E) (fst st) ->
+  prun E (PAdd :: PAdd :: ops) st = prun E (PAdd :: ops) st.
+Proof. exact pipeline_add_twice_lemma. Qed.
+Print Assumptions add_measures_twice_is_add_measures_once.
+
+(* discriminating: with sanitize_part comparing `>=` instead of `>` (every contiguous chain is taken apart at
+   tie_tolerance 0) the note array changes on add_measures / tie_notes / sanitize_part -- vm_compute *)
+Theorem pipeline_strict_tolerance_refuted :
+  exists E ops st st', Forall tol_ok ops /\ all_contiguous (snd st)
+    /\ prun_with sanitize_chains_ge E ops st = Some st'
+    /\ map sounding (snd st') <> map sounding (snd st).
+Proof. exact pipeline_ge_refuted_lemma. Qed.
+Print Assumptions pipeline_strict_tolerance_refuted.
+
+(* ... and add_measures is needed: tie_notes on measures with a gap leaves a piece outside every measure *)
+Theorem pipeline_without_add_measures_refuted :
+  exists ms cs, prun pex_env [PRests; PTie; PSan 0] (pex_ms0, pex_cs0) = Some (ms, cs)
+    /\ pieces_in_measuresb ms cs = false.
+Proof. exact pipeline_no_add_refuted_lemma. Qed.
+Print Assumptions pipeline_without_add_measures_refuted.
+
+(* hypotheses satisfiable: 4/4 then 3/4 at 32, one existing measure (16, 32), a note (3, 35) and a pre-tied chain;
+   fill_rests, sanitize_part(1), add_measures, add_measures AGAIN, tie_notes, find_tuplets, sanitize_part, fill_rests *)
+Example pipeline_example :
+  prun pex_env (pex_ops1 ++ PAdd :: PTie :: pex_ops2) (pex_ms0, pex_cs0)
+  = Some ([(0, 16); (16, 32); (32, 44); (44, 56)],
+          [(60, 1, 1, [(3, 4); (4, 16); (16, 32); (32, 35)]); (64, 2, 1, [(8, 16); (16, 20); (20, 21)])])
+  /\ pre (pe_tsigs pex_env) (pe_first pex_env) (pe_last pex_env) pex_ms0
+  /\ Forall (fun e => 0 < snd e) (pe_dm pex_env) /\ all_contiguous pex_cs0
+  /\ pieces_inside (pe_first pex_env) (pe_last pex_env) pex_cs0
+  /\ Forall tol_ok pex_ops1 /\ Forall not_tie pex_ops1 /\ Forall quiet pex_ops2.
+Proof. exact (conj pex_result (conj pex_pre pex_hyps)). Qed.
+Print Assumptions pipeline_example.
